@@ -7,6 +7,7 @@ import (
 	"github.com/hashicorp/hcl/v2"
 	"github.com/hashicorp/hcl/v2/gohcl"
 	"github.com/hashicorp/hcl/v2/hclparse"
+	"github.com/hashicorp/hcl/v2/hclsyntax"
 	"github.com/spf13/afero"
 	"github.com/zclconf/go-cty/cty"
 	"github.com/zclconf/go-cty/cty/function"
@@ -101,6 +102,10 @@ func ParseHCLFile(file afero.File) (AmmoHCL, error) {
 		return AmmoHCL{}, fmt.Errorf("%s, io.ReadAll, %w", op, err)
 	}
 
+	if err := checkHCLNesting(bytes, file.Name()); err != nil {
+		return AmmoHCL{}, fmt.Errorf("%s, %w", op, err)
+	}
+
 	parser := hclparse.NewParser()
 	f, diag := parser.ParseHCL(bytes, file.Name())
 	if diag.HasErrors() {
@@ -124,6 +129,40 @@ func ParseHCLFile(file afero.File) (AmmoHCL, error) {
 		return AmmoHCL{}, diag
 	}
 	return config, nil
+}
+
+// maxHCLNesting bounds how deep brackets, braces, parentheses, quoted templates and runs of unary operators may nest.
+// The HCL parser is recursive: an expression nested a hundred thousand levels deep overflows the goroutine stack,
+// which is a fatal error that cannot be recovered from. Real scenario files nest a handful of levels.
+const maxHCLNesting = 1000
+
+func checkHCLNesting(src []byte, filename string) error {
+	// The scanner is not recursive. Its diagnostics are ignored here: the parser reports them.
+	tokens, _ := hclsyntax.LexConfig(src, filename, hcl.InitialPos)
+	depth, unary := 0, 0
+	for _, token := range tokens {
+		switch token.Type {
+		case hclsyntax.TokenBang, hclsyntax.TokenMinus:
+			unary++
+			if unary > maxHCLNesting {
+				return fmt.Errorf("%s:%d: more than %d unary operators in a row", filename, token.Range.Start.Line, maxHCLNesting)
+			}
+			continue
+		case hclsyntax.TokenOBrace, hclsyntax.TokenOBrack, hclsyntax.TokenOParen, hclsyntax.TokenOQuote, hclsyntax.TokenOHeredoc,
+			hclsyntax.TokenTemplateInterp, hclsyntax.TokenTemplateControl:
+			depth++
+			if depth > maxHCLNesting {
+				return fmt.Errorf("%s:%d: nesting deeper than %d levels", filename, token.Range.Start.Line, maxHCLNesting)
+			}
+		case hclsyntax.TokenCBrace, hclsyntax.TokenCBrack, hclsyntax.TokenCParen, hclsyntax.TokenCQuote, hclsyntax.TokenCHeredoc,
+			hclsyntax.TokenTemplateSeqEnd:
+			if depth > 0 {
+				depth--
+			}
+		}
+		unary = 0
+	}
+	return nil
 }
 
 func decodeLocals(localsBodyContent *hcl.BodyContent) (*hcl.EvalContext, hcl.Diagnostics) {
